@@ -53,6 +53,9 @@ def run(ctx):
     options = pp.options_product(ctx.tier)
     ctx.bounds['options'] = len(options)
     ctx.product_run('options', 'checks.c01:run_case', options, chunksize=1)
+    reconf = pp.reconfigure_product(ctx.tier)
+    ctx.bounds['reconfigure'] = len(reconf)
+    ctx.product_run('reconfigure', 'checks.c01:run_case', reconf, chunksize=1)
     ctx.product_run('shape', 'checks.c01:run_case', shape, chunksize=1)
     ctx.product_run('default-dtscale', 'checks.c01:run_case', dflt, chunksize=1)
     real = pp.real_product(ctx.tier)
